@@ -44,7 +44,7 @@ WithinCapacity(e) ==
      \/ (e.res.err = "singular" /\ (SingularUndecidable(e) \/ SingularJustified(e)))
 
 Clauses(e) ==
-  << << "C01.within_capacity", IsRepair(e) => WithinCapacity(e) >>,
+  << << "C01.within_capacity", (IsRepair(e) /\ ~e.stale) => WithinCapacity(e) >>,   \* stale: the blocks present are intact but belong to other data
      << "C01.ok_implies_restored", IsRepair(e) => (e.res.err = "" => e.restored) >>,
      << "C02.write_discipline", e.changed_ok /\ (e.writes # << >> => IsRepair(e)) >>,
      << "C02.listed_means_written", IsRepair(e) => e.listed_ok >>,
@@ -72,7 +72,7 @@ Clauses(e) ==
      << "C14.failure_keeps_or_restores", (IsRepair(e) /\ e.res.err # "") => e.kept_or_restored >>,
      << "C14.verify_pure", IsVerify(e) => (e.writes = << >> /\ e.outside = << >>) >>,
      << "C16.survivors_counted", (IsVerify(e) /\ e.res.err = "") => e.nsurv <= e.res.usable >>,
-     << "C16.repair_uses_survivors", IsRepair(e) => WithinCapacity(e) >>,
+     << "C16.repair_uses_survivors", (IsRepair(e) /\ ~e.stale) => WithinCapacity(e) >>,
      << "INC.singular_undecidable", ~(IsRepair(e) /\ SingularUndecidable(e) /\ e.n - e.nsurv <= Len(e.exps)) >> >>
 
 Failed(e) == LET c == Clauses(e) IN {c[i][1] : i \in {j \in 1 .. Len(c) : ~c[j][2]}}
